@@ -814,7 +814,10 @@ class BatcherCheck(Check):
         base = ('cases = seeded timed programs of calls on the grid around batch_timeout (and around the retention '
                 'window for C11), max_batch_size 1-5, max_concurrent_batches 1-3, retention_timeout {0, bt/2, 8bt}, batch and '
                 'item durations on the grid, result order forward/reverse/shuffled, class / decorator / decorator-with-options '
-                'forms, explicit and default str(arg) keys; distinct = distinct programs; ')
+                'forms, explicit and default str(arg) keys; (C04, C11) the class of yielded / raised failures from {HarnessError, KeyError '
+                'and a subclass, StopIteration, StopAsyncIteration, TimeoutError, OSError, ValueError, RuntimeError} and arguments that '
+                'compare equal but print differently; (C10) impatient callers that give up before the hand-over; (C11) callers that ask '
+                'again right after being answered; distinct = distinct programs; ')
         return base + {
             'C04': 'non-trivial = a batch of >= 2 keys with a non-"value" behaviour or a non-forward order',
             'C09': 'non-trivial = a cancelled / timed-out caller whose batch or key was shared with a caller that was not cancelled',
